@@ -40,6 +40,11 @@ def thetaCtor (p : Args) : Args :=
    ("use_boxcox", "None"), ("initial_level", lvl), ("initial_trend", "None"), ("initial_seasonal", "None"),
    ("initialization_method", if lvl == "None" || lvl == "0" then "estimated" else "known")]
 
+/-- statsmodels' `ExponentialSmoothing` constructor raises ValueError when an initial level is passed although the
+initialisation is to be estimated (probed: "initialization method is estimated but initial_level has been set") -/
+def smRejects (ctor : Args) : Bool :=
+  get ctor "initialization_method" == "estimated" && get ctor "initial_level" != "None"
+
 def showArgs (a : Args) : String :=
   if a.isEmpty then "-" else ";".intercalate (a.map (fun kv => kv.1 ++ ":" ++ kv.2))
 
